@@ -696,8 +696,8 @@ Proof. vm_compute. repeat split; reflexivity. Qed.
 
 (* ================= H. the executable property holds of the model on every well-formed input ================= *)
 From Bfe Require Import run.RunC11.
-Lemma prop_shape o x : val_eqb o x = true ->
-  match o with VL [VZ (-1); VZ _] => true | _ => val_eqb o x end = true.
+Lemma prop_shape2 o (y : bool) : y = true ->
+  match o with VL [VZ (-1); VZ _] => true | _ => y end = true.
 Proof.
   intros H. destruct o as [z|bs|l]; try exact H.
   destruct l as [|a l]; try exact H. destruct a as [z|bs|l']; try exact H.
@@ -705,13 +705,36 @@ Proof.
   destruct l as [|a2 l]; try exact H. destruct a2 as [z|bs|l']; try exact H.
   destruct l; [reflexivity|exact H].
 Qed.
-Theorem prop_C11_of_model i : dec_C11 i <> None -> prop_C11 i (run_C11 i) = true.
+(* using the exported API directly on rules that pass the loader's checks builds the same tree as the loader *)
+Lemma insert_from_checked rules : forall ht,
+  forallb check_rule rules = true -> insert_from rules ht = load_from rules ht.
 Proof.
-  unfold prop_C11, run_C11. destruct (dec_C11 i) as [[rules queries]|]; [|congruence]. intros _.
-  destruct (load_rules rules) as [t|] eqn:El; [|reflexivity].
-  refine (prop_shape (VL (map (fun q => enc_res (tree_get t (fst q) (snd q))) queries))
-                     (VL (map (fun q => enc_res (doc_route rules (fst q) (snd q))) queries)) _).
-  rewrite (map_ext (fun q => enc_res (tree_get t (fst q) (snd q))) (fun q => enc_res (doc_route rules (fst q) (snd q))))
-    by (intros q; rewrite (get_refines_doc _ _ _ _ El); reflexivity).
-  apply val_eqb_refl.
+  induction rules as [|r rules IH]; intros ht H; simpl; [reflexivity|].
+  simpl in H. apply andb_true_iff in H. destruct H as [Hr Hrest]. rewrite Hr.
+  destruct (tree_insert r ht); [apply IH; exact Hrest|reflexivity].
+Qed.
+Theorem insert_all_checked rules : forallb check_rule rules = true -> insert_all rules = load_rules rules.
+Proof. apply insert_from_checked. Qed.
+Lemma load_from_all_checked rules : forall ht ht', load_from rules ht = Some ht' -> forallb check_rule rules = true.
+Proof.
+  induction rules as [|r rules IH]; intros ht ht'; simpl; [reflexivity|].
+  destruct (check_rule r); [|discriminate]. destruct (tree_insert r ht) as [ht1|]; [|discriminate].
+  intros H. simpl. apply (IH ht1 ht' H).
+Qed.
+Lemma answers_refine rules t queries : load_rules rules = Some t ->
+  enc_answers (tree_get t) queries = enc_answers (doc_route rules) queries.
+Proof.
+  intros El. unfold enc_answers. f_equal. apply map_ext. intros q. rewrite (get_refines_doc _ _ _ _ El). reflexivity.
+Qed.
+Theorem prop_C11_of_model i : wf_C11 i = true -> kf_C11 i = 0 -> prop_C11 i (run_C11 i) = true.
+Proof.
+  unfold wf_C11, prop_C11, run_C11. destruct (dec_C11 i) as [[[direct rules] queries]|]; [|discriminate]. intros _ _.
+  destruct direct.
+  - destruct (insert_all rules) as [t|] eqn:Ei; [|reflexivity].
+    refine (prop_shape2 (enc_answers (tree_get t) queries) _ _).
+    simpl andb. destruct (forallb check_rule rules) eqn:Ec; [|reflexivity].
+    rewrite (insert_all_checked rules Ec) in Ei. rewrite (answers_refine rules t queries Ei). apply val_eqb_refl.
+  - destruct (load_rules rules) as [t|] eqn:El; [|reflexivity].
+    refine (prop_shape2 (enc_answers (tree_get t) queries) _ _).
+    simpl andb. cbv iota. rewrite (answers_refine rules t queries El). apply val_eqb_refl.
 Qed.
